@@ -476,6 +476,50 @@ func c05Text(r *rand.Rand, slashOK bool) string {
 	return string(b)
 }
 
+// c05Hostile is a text that starts with a reserved byte and goes on with a fragment of some key of the
+// table: if lookup wrongly follows a special edge, the following bytes have a chance to keep walking.
+func c05Hostile(r *rand.Rand, slashOK bool, keys []string) string {
+	k := keys[r.Intn(len(keys))]
+	a := r.Intn(len(k))
+	b := a + 1 + r.Intn(len(k)-a)
+	frag := k[a:b]
+	if !slashOK {
+		frag = strings.ReplaceAll(frag, "/", "")
+	}
+	return string([]byte{":*#\x00"[r.Intn(4)]}) + frag
+}
+
+func c05InstantiateK(r *rand.Rand, key string, keys []string) string {
+	if !c05IsParamKey(key) {
+		return key
+	}
+	var sb strings.Builder
+	for i := 0; i < len(key); {
+		switch key[i] {
+		case ':':
+			for i < len(key) && key[i] != '/' {
+				i++
+			}
+			if r.Intn(6) == 0 {
+				sb.WriteString(c05Hostile(r, false, keys))
+			} else {
+				sb.WriteString(c05Text(r, false))
+			}
+		case '*':
+			if r.Intn(3) == 0 {
+				sb.WriteString(c05Hostile(r, true, keys))
+			} else {
+				sb.WriteString(c05Text(r, true))
+			}
+			i = len(key)
+		default:
+			sb.WriteByte(key[i])
+			i++
+		}
+	}
+	return sb.String()
+}
+
 func c05Instantiate(r *rand.Rand, key string) string {
 	if !c05IsParamKey(key) {
 		return key
@@ -540,7 +584,7 @@ func c05Paths(r *rand.Rand, keys []string, n int) (paths []Bs, origin []string) 
 		var p, o string
 		switch k := r.Intn(20); {
 		case k < 14:
-			p, o = c05Instantiate(r, keys[r.Intn(len(keys))]), "inst"
+			p, o = c05InstantiateK(r, keys[r.Intn(len(keys))], keys), "inst"
 		case k < 17:
 			p, o = c05Mutate(r, c05Instantiate(r, keys[r.Intn(len(keys))])), "mutant"
 		default:
@@ -560,7 +604,7 @@ func c05Size(r *rand.Rand, tier string) int {
 		return 8 + r.Intn(13)
 	default:
 		if tier == "thorough" && r.Intn(10) == 0 {
-			return 200 + r.Intn(1800)
+			return 100 + r.Intn(100)
 		}
 		return 20 + r.Intn(21)
 	}
